@@ -199,11 +199,13 @@ def divmod(P, D, reverse=False):
     Q = []
     R = P
     for k in range(n):
-        if not R:
-            break
-        t = R[-1] / ld
+        # coefficient of the term that D[k:] is aligned with; it is zero
+        # when the remainder has already lost that degree
+        i = len(P) - 1 - k
+        t = R[i] / ld if i < len(R) else 0
         Q.insert(0, t)
-        R = add(R, multiply(-t, D[k:], reverse=reverse), reverse=reverse)
+        if t != 0:
+            R = add(R, multiply(-t, D[k:], reverse=reverse), reverse=reverse)
         while R and R[-1] == 0:
             R.pop()
     while Q and Q[-1] == 0:
